@@ -1,4 +1,5 @@
 CONSTANTS
+  Marks = {"none", "skip_serializing", "skip_deserializing"}
   Collisions = {"none", "not3", "xy3"}
   Spellings = {"after_list", "between_lists", "merged", "split", "apart"}
   Idents = {"UserId", "A", "Foo", "FooBar", "HTTPServer", "URL", "Init", "Default", "None"}
